@@ -1,6 +1,7 @@
 import Driver.Util
 import Driver.Run
 import DoitModel.Model.Report
+import DoitModel.Model.ReportText
 open Lean DoitModel.Run DoitModel.Report
 namespace Driver.P19
 /-! Handler for `{"model":"c19", …}` (protocol: harness/props/c19.py docstring).
@@ -61,7 +62,59 @@ def optNat : Option Nat → Json
   | none => Json.null
   | some n => toJson n
 
+/-! #### text reporters: `{"model":"c19","text":true,"cls":..,"fv":N,"tasks":[{name,title,acts,executed,verb,out,err}],
+"calls":[["get_status",t] | ["execute",t] | ["failure",t,cls,msg,report] | ["success",t] | ["skip_uptodate",t] |
+["skip_ignore",t] | ["cleanup_error",m] | ["runtime_error",m] | ["teardown",t] | ["complete"]]}` ->
+exact text on outstream / stderr for `Model/ReportText.lean`, plus the decoders of the C19 text theorems -/
+section Text
+open DoitModel.ReportText
+
+def clsOf (s : String) : Cls :=
+  match s with
+  | "executed-only" => .executedOnly | "zero" => .zero | "error-only" => .errorOnly | _ => .console
+
+def parseTask (j : Json) : TaskI :=
+  { name := jstr j "name", title := jstr j "title", hasActions := jbool j "acts", executed := jbool j "executed",
+    verb := jnat j "verb", out := jstr j "out", err := jstr j "err" }
+
+def parseCall (j : Json) : Option RCall :=
+  match asArr j with
+  | [k, a] =>
+    match asStr k with
+    | "get_status" => some (.getStatus (asNat a)) | "execute" => some (.execute (asNat a))
+    | "success" => some (.addSuccess (asNat a)) | "skip_uptodate" => some (.skipUtd (asNat a))
+    | "skip_ignore" => some (.skipIgn (asNat a)) | "teardown" => some (.teardown (asNat a))
+    | "cleanup_error" => some (.cleanupError (asStr a)) | "runtime_error" => some (.runtimeError (asStr a))
+    | _ => none
+  | [k, t, c, m, r] =>
+    if asStr k = "failure" then some (.addFailure (asNat t) ⟨asStr c, asStr m, (r.getBool?).toOption.getD true⟩) else none
+  | [k] => if asStr k = "complete" then some .complete else none
+  | _ => none
+
+def pkStr : PKind → String
+  | .executed => "executed" | .upToDate => "up-to-date" | .ignored => "ignored"
+
+def handleText (j : Json) : Json :=
+  let tasks := (jarr j "tasks").map parseTask
+  let tk : Nat → TaskI := fun t => tasks.getD t {}
+  let fv := jnat j "fv"
+  let cls := clsOf (jstr j "cls")
+  match (jarr j "calls").mapM parseCall with
+  | none => Driver.err "bad call"
+  | some cs =>
+    let s := DoitModel.ReportText.run cls fv tk cs
+    let pairs (l : List (Nat × PKind)) : Json := mkArr (l.map fun p => mkArr [toJson p.1, Json.str (pkStr p.2)])
+    Json.mkObj [
+      ("out", Json.str (outText tk s)), ("err", Json.str (errText s)), ("nlines", toJson s.out.length),
+      ("progress", pairs (decodeProgress s.out)),
+      ("happened", pairs (cs.filterMap (RCall.happened tk))),
+      ("failures", ofNats (s.failures.map (·.1))),
+      ("blocks", ofNats (decodeBlocks (summary fv tk s))),
+      ("skiplines", toJson (s.out.countP Line.isSkip))]
+end Text
+
 def handle (j : Json) : Json :=
+  if jbool j "text" then handleText j else
   let inp := Driver.Run.parseInput j
   let n := jnat j "n"
   match (jarr j "trace").mapM Driver.Run.parseEv with
